@@ -114,6 +114,7 @@ pub fn push_call_frame(
     src_ptr: u32,
     instr_ptr: u32,
     closure: *mut CaoLangClosure,
+    callee: *mut CaoLangObject,
     runtime_data: &mut RuntimeData,
 ) -> ExecutionResult {
     // remember the location after this jump
@@ -135,6 +136,7 @@ pub fn push_call_frame(
                 .checked_sub(arity)
                 .ok_or(ExecutionErrorPayload::MissingArgument)? as u32,
             closure,
+            callee,
         })
         .map_err(|_| ExecutionErrorPayload::CallStackOverflow)?;
     Ok(())
@@ -182,6 +184,7 @@ pub fn instr_call_function<T>(
         src_ptr as u32,
         *instr_ptr as u32,
         closure,
+        o.as_ptr(),
         &mut vm.runtime_data,
     )?;
 
